@@ -187,7 +187,10 @@ func (s *Settings) merge(other *Settings) {
 		sField := sStruct.FieldByName(field.Name)
 		otherField := otherStruct.FieldByName(field.Name)
 
-		if field.Type.Kind() == reflect.Pointer {
+		if field.Type.Kind() == reflect.Pointer || field.Type.Kind() == reflect.Slice {
+			// An unset (nil) value of a later layer must not erase what an
+			// earlier layer configured, e.g. a trusted proxy list given on the
+			// command line when the environment variable is absent.
 			otherFieldValue := getUnexportedField(otherField)
 			if !isNilish(otherFieldValue) {
 				setUnexportedField(sField, otherFieldValue)
